@@ -44,6 +44,9 @@ type Options struct {
 	// ExecNames: type names that are also exported identifiers of the generated exec file (Config,
 	// ResolverRoot, ...) - only sensible when the models live in a package of their own
 	ExecNames bool
+	// RichDirectiveArgs: directives may have up to four arguments, several of them with (different)
+	// defaults
+	RichDirectiveArgs bool
 }
 
 type Schema struct {
@@ -461,10 +464,19 @@ func Generate(t *rapid.T, opt Options) *Schema {
 				}
 			}
 			na := rapid.IntRange(0, 2).Draw(t, "ndirargs")
+			if opt.RichDirectiveArgs {
+				na = rapid.IntRange(0, 4).Draw(t, "ndirargs-rich")
+			}
 			for j := 0; j < na; j++ {
-				a := arg{name: []string{"name", "level"}[j], typ: []string{"String", "Int!"}[j], desc: g.desc()}
+				a := arg{name: []string{"name", "level", "mode", "ratio"}[j], typ: []string{"String", "Int!", "String", "Float"}[j], desc: g.desc()}
 				if a.typ == "String" && rapid.Bool().Draw(t, "dirargdef") {
-					a.def = `"d"`
+					a.def = []string{`"d"`, "", `"per user"`, ""}[j]
+				}
+				if opt.RichDirectiveArgs && j == 1 && rapid.Bool().Draw(t, "dirargdef-level") {
+					a.def = "7"
+				}
+				if j == 3 && rapid.Bool().Draw(t, "dirargdef-ratio") {
+					a.def = "1.5"
 				}
 				if a.typ == "String" {
 					a.deprecated = g.deprecation(g.opt.DeprecatedInputs)
